@@ -416,12 +416,16 @@ func builderDelta(w *World, fs *FuncSummary, inv lenInvariant, F *Term) deltaVer
 	// ---- change of F caused by the other stores
 	dF := Const(0)
 	var notes []string
+	replacedElem := "" // a list of F one of whose elements the builder overwrites in place
 	postForm := false // F' is expressed over the post-state (same symbolic form as F)
 	var bad string
 	F.HasAtom(func(a *Atom) bool {
 		switch a.Kind {
 		case "sum":
 			for _, s := range fs.Stores {
+				if s.Path == a.Path+"[]" && replacedElem == "" {
+					replacedElem = a.Path
+				}
 				if s.Path != a.Path {
 					continue
 				}
@@ -487,6 +491,22 @@ func builderDelta(w *World, fs *FuncSummary, inv lenInvariant, F *Term) deltaVer
 		return deltaVerdict{undec: bad}
 	}
 	dF = w.ExpandLens(dF, 0)
+	if replacedElem != "" {
+		// the new element need not have the size of the one it replaces: only a recomputation from the
+		// contents after the change keeps the stored length right
+		recomputed := false
+		for _, s := range lStores {
+			if iv, ok := s.Val.(IntV); ok && s.Op == "=" && s.Guard == "" {
+				v := w.ExpandLens(stripWraps(iv.T, map[string]bool{}), 0)
+				if termsEqual(v, w.ExpandLens(F, 0)) {
+					recomputed = true
+				}
+			}
+		}
+		if !recomputed {
+			return deltaVerdict{note: fmt.Sprintf("an element of %s is overwritten in place (the new element may have another size, e.g. a masked field replacing an exact one) and %s is not recomputed from the contents afterwards: the declared length goes stale", replacedElem, inv.L)}
+		}
+	}
 	if len(lStores) == 0 {
 		if pushCoef(dF).IsZero() {
 			return deltaVerdict{ok: true, note: "contents and stored length both unchanged"}
